@@ -35,6 +35,11 @@ EXTRA.update({
  "C17-r6gam1": ["C17", "C05"], "C04-r6gam2": ["C04", "C03"], "C07-r6gbm1": ["C07"], "C08-r6gbm2": ["C08"], "C02-r6gcm1": ["C02", "C13"], "C14-r6gcm2": ["C14"],
  "C11-r6gdm1": ["C11", "C14"], "C05-r6gdm2": ["C05", "C01"], "C13-r6gem1": ["C13", "C05"], "C12-r6gem2": ["C12"], "C09-r6gfm1": ["C09", "C03", "C04"], "C07-r6gfm2": ["C07"],
 })
+EXTRA.update({
+ "C05-r7gam1": ["C05", "C01"], "C16-r7gam2": ["C16"], "C02-r7gbm1": ["C02", "C01"], "C13-r7gbm2": ["C17", "C13"], "C03-r7gcm1": ["C03", "C04"],
+ "C08-r7gcm2": ["C08", "C09"], "C17-r7gdm1": ["C17"], "C10-r7gdm2": ["C10", "C04", "C03", "C09"], "C07-r7gem1": ["C07"], "C06-r7gem2": ["C05", "C06"],
+ "C01-r7gfm1": ["C01"], "C14-r7gfm2": ["C14", "C11"],
+})
 PREFIX_PROP = {"d8b687c": ["C06"], "da7613f": ["C16"], "64a92d9": ["C02"], "2c87331": ["C13", "C02", "C12"], "06fc22c": ["C05", "C11"],
                "85dc330": ["C05", "C11"], "4c427cc": ["C13"], "a8065bf": ["C13"], "a4e97cf": ["C11"], "2aa0389": ["C04"],
                "9db7846": ["C17"], "23f20cf": ["C17"], "b18464c": ["C07"], "d06cb78": ["C10"], "796c1d9": ["C01", "C11"], "e184993": ["C10"]}
